@@ -345,3 +345,35 @@ func (s *Script) Prefix(pos int) string {
 	}
 	return b.String()
 }
+
+
+// ExpandTo rewrites a term so that it only mentions names introduced up to checkpoint, by unfolding
+// the definitions of later names. It fails if a later name is a declared (unconstrained) constant.
+func (s *Script) ExpandTo(t Term, checkpoint int) (Term, bool) {
+	ok := true
+	var expand func(text string, depth int) string
+	expand = func(text string, depth int) string {
+		if depth > 50 {
+			ok = false
+			return text
+		}
+		return nameRe.ReplaceAllStringFunc(text, func(name string) string {
+			m := idRe.FindStringSubmatch(name)
+			if m == nil {
+				return name
+			}
+			id, _ := strconv.Atoi(m[1])
+			if id <= checkpoint {
+				return name
+			}
+			def, has := s.defs[name]
+			if !has {
+				ok = false
+				return name
+			}
+			return expand(def, depth+1)
+		})
+	}
+	out := expand(t.S, 0)
+	return Term{out, t.Sort}, ok
+}
